@@ -36,6 +36,15 @@ def parseOpts : Nat → Cursor → Out (List Opt)
     let rest ← parseOpts fuel c
     pure (⟨code, len, data⟩ :: rest)
 
+/-- `if (is_relay_message()) { stream.read(link_addr_); stream.read(peer_addr_); }` (default-constructed addresses
+    otherwise) -/
+def readRelay (on : Bool) (c : Cursor) : Out (Bytes × Bytes × Cursor) :=
+  if on then do
+    let (l, c) ← c.read 16
+    let (p, c) ← c.read 16
+    pure (l, p, c)
+  else pure (List.replicate 16 0, List.replicate 16 0, c)
+
 /-- `DHCPv6::DHCPv6(const uint8_t* buffer, uint32_t total_sz)` -/
 def parse (b : Bytes) : Out (Dhcpv6 × Inner) := do
   let c := Cursor.ofBytes b
@@ -48,12 +57,7 @@ def parse (b : Bytes) : Out (Dhcpv6 × Inner) := do
   let (hd, c) ← c.read required                          -- stream.read(&header_data_, required_size)
   let h := hd ++ List.replicate (4 - required) 0
   let d0 : Dhcpv6 := ⟨h, List.replicate 16 0, List.replicate 16 0, [], 0⟩
-  let (link, peer, c) ←
-    if d0.isRelay then do
-      let (l, c) ← c.read 16
-      let (p, c) ← c.read 16
-      pure (l, p, c)
-    else pure (d0.link, d0.peer, c)
+  let (link, peer, c) ← readRelay d0.isRelay c
   let opts ← parseOpts c.size c
   pure (⟨h, link, peer, opts, sizeAfter 0 opts⟩, .none)
 
